@@ -81,6 +81,13 @@ def install_seams():
     _uuid_mod.uuid4 = _sim_uuid4
     gtirb.node.uuid4 = _sim_uuid4
     gtirb.node.Node.__hash__ = _node_hash
+    # the library's module-level loggers (warnings about section flags, ...)
+    # must not write to the worker's stderr / the protocol stream
+    import logging
+
+    lg = logging.getLogger("gtirb_rewriting")
+    lg.addHandler(logging.NullHandler())
+    lg.propagate = False
     _state["installed"] = True
 
 
